@@ -279,6 +279,20 @@ func (in *Interp) branch(c *Term) bool {
 	in.trace = append(in.trace, d)
 	in.pos++
 	if decStats != nil {
+		if d.what == ":0" && !d.forced {
+			ts := c.String()
+			if len(ts) > 120 {
+				ts = ts[:120]
+			}
+			decStats["cond "+ts]++
+			if in.cur != nil {
+				st := ""
+				for f, n := in.cur, 0; f != nil && n < 5; f, n = f.caller, n+1 {
+					st += " <- " + f.fn.String()
+				}
+				decStats["where"+st]++
+			}
+		}
 		decStats["branch "+d.what+fmt.Sprintf(" forced=%v", d.forced)]++
 	}
 	if d.val != 0 {
